@@ -218,6 +218,31 @@ def oracle(case, line):
                 snap[t] = None
         if label.startswith("dl_") and snap[t] is not None:
             snap[t][3] = True
+    # handshake progress (coq/C17/Properties.v handshake_wait_ends_within_2 / notified_waiter_enabled), single id only (so
+    # that every dl_fetch_and is on the waited-for id): a thread whose latest step entered wait_for_deadlock's id->wait()
+    # (dl_wwait) must be enabled once ANOTHER thread has executed dl_fetch_and (+ notify_all) since - being reported
+    # not-enabled ("t:-") then is a lost wake-up of the 0x8 handshake
+    if nids == 1:
+        hs_wait = {}
+        for k, tok in enumerate(line.partition(" | ")[0].split()[1:]):
+            f = tok.split(":")
+            if len(f) < 2 or not f[0].isdigit():
+                continue
+            t = int(f[0])
+            if f[1] == "-":
+                if hs_wait.get(t):
+                    bad.append(("handshake-lost-wakeup", "thread %d is still blocked in wait_for_deadlock at schedule step %d although another "
+                                                         "thread cleared the 0x8 flag (dl_fetch_and + notify_all) after it began to wait" % (t, k)))
+                    break
+            else:
+                if f[1] == "dl_wwait":
+                    hs_wait[t] = False
+                else:
+                    hs_wait.pop(t, None)
+                if f[1] == "dl_fetch_and":
+                    for o in hs_wait:
+                        if o != t:
+                            hs_wait[o] = True
     m = re.search(r"F (\S+) C (\d) Q (\S+)", tail)
     if m:
         if m.group(2) == "1":
